@@ -121,4 +121,40 @@ def unstakeLp (e : Env) (p : Pos) (vault unstake : Nat) : Option UnstakeOut :=
       some ⟨r, transfer, fullExit,
         if fullExit then none else some { p with amount := remaining, value := newValue, cum := cumEnd }⟩
 
+/-! ## histories of one position: claims and partial unstakes over time (`lp chain`) -/
+
+inductive ChainOp where
+  | claim
+  | unstake (amt : Nat)
+  deriving Repr
+
+structure ChainSt where
+  e : Env
+  pos : Option Pos
+  vault : Nat
+
+/-- one step: the clock advances by `dt`, the GT cost integral by `dcum`, then `claim_gt` / `unstake_lp` on the
+position as the previous step left it; a failed instruction changes nothing. Returns the minted reward. -/
+def chainStep (c : ChainSt) (dt dcum : Nat) (op : ChainOp) : ChainSt × Option Nat :=
+  let e : Env := { c.e with now := c.e.now + dt, cumNow := c.e.cumNow + dcum }
+  match c.pos with
+  | none => (⟨e, none, c.vault⟩, none)
+  | some p =>
+    match op with
+    | .claim =>
+      match claimGt e p with
+      | some (r, p') => (⟨e, some p', c.vault⟩, some r)
+      | none => (⟨e, some p, c.vault⟩, none)
+    | .unstake a =>
+      match unstakeLp e p c.vault a with
+      | some o => (⟨e, o.pos, c.vault - o.transfer⟩, some o.minted)
+      | none => (⟨e, some p, c.vault⟩, none)
+
+def runChain (c : ChainSt) : List (Nat × Nat × ChainOp) → ChainSt × List (Option Nat)
+  | [] => (c, [])
+  | (dt, dcum, op) :: rest =>
+    let r := chainStep c dt dcum op
+    let t := runChain r.1 rest
+    (t.1, r.2 :: t.2)
+
 end Gmx.Lp
